@@ -8,8 +8,10 @@
 (*   C10.normal   | (J'J + lam D^2) dx + J'r |  <=  1e-8 ( |H| |dx| + |J'r| )  *)
 (*   C10.agree    sparse dx = dense dx to 1e-6 when a certified upper bound of *)
 (*                cond(H) (trace H / (lam min d_i^2)) is <= 1e8                *)
-(*   C10.dphi     dphi = d|D dx(lam)|/dlam, from an exact solve with rigorous  *)
-(*                a-posteriori error bounds, compared in squared form          *)
+(*   C10.dphi     dphi = d|D dx(lam)|/dlam; reference -(D^2 x)'H^-1(D^2 x)/|D x|   *)
+(*                from exact-arithmetic solves with rigorous a-posteriori      *)
+(*                error bounds, compared in squared (rational) form; 1e-6      *)
+(*                relative where the condition bound is certified, else sign   *)
 (*   C10.tr.*     lambda = fl(1/Delta) (the nearest double), normal equations  *)
 (*                with that lambda, |J dx + r|^2 <= |r|^2 (1 + 1e-12)          *)
 (*   C10.colnorm  colwise_norm(J)_j^2 = sum_i J_ij^2 to 1e-14 relative         *)
@@ -21,8 +23,8 @@ TraceFile == IOEnv.TRACE
 OutFile == IOEnv.VERDICT
 Tr == ndJsonDeserialize(TraceFile)
 
-VARIABLES l, bad, cov
-vars == <<l, bad, cov>>
+VARIABLES l, acc            \* position; accumulated rejected steps and coverage cells
+vars == <<l, acc>>
 
 ---------------------------------------------------------------------------
 \* reading logged numbers
@@ -39,7 +41,7 @@ Tool(what, detail) == <<[clause |-> "TOOL." \o what, st |-> "-", err |-> detail,
 RECURSIVE CatSeq(_, _)
 CatSeq(ss, k) == IF k > Len(ss) THEN <<>> ELSE ss[k] \o CatSeq(ss, k + 1)
 \* results of F(k) for k = 1..n concatenated
-ForAllCat(n, F(_)) == CatSeq([k \in 1..n |-> F(k)], 1)
+ForAllCat(n, F(_)) == CatSeq(RForce([k \in 1..n |-> F(k)]), 1)
 
 RECURSIVE SumSeq(_, _)
 SumSeq(s, k) == IF k = 0 THEN R0 ELSE RAdd(s[k], SumSeq(s, k - 1))
@@ -326,22 +328,26 @@ AddKeys(c, ks, k) ==
   IF k > Len(ks) THEN c
   ELSE AddKeys(IF ks[k] \in DOMAIN c THEN [c EXCEPT ![ks[k]] = @ + 1] ELSE c @@ (ks[k] :> 1), ks, k + 1)
 
-Init == l = 1 /\ bad = <<>> /\ cov = <<>>
+\* One step, as an expression: LET definitions are evaluated once here (TLC does not cache LET definitions
+\* at the action level, which made every rejected check re-evaluate the whole event).
+Upd(a, e, ln) ==
+  LET res == RForce(Check(e))
+      ks == Keys(e, res)
+      stratum == IF Len(ks) = 0 THEN "-" ELSE ks[1]
+  IN [bad |-> a.bad \o RForce([i \in 1..Len(res) |-> [line |-> ln, op |-> e.op, id |-> e.id, stratum |-> stratum] @@ res[i]]),
+      cov |-> AddKeys(a.cov, ks, 1)]
+
+Init == l = 1 /\ acc = [bad |-> <<>>, cov |-> <<>>]
 
 Next ==
   /\ l <= Len(Tr)
-  /\ LET e == Tr[l]
-         res == Check(e)
-         ks == Keys(e, res)
-         stratum == IF Len(ks) = 0 THEN "-" ELSE ks[1]
-     IN /\ bad' = bad \o [i \in 1..Len(res) |-> [line |-> l, op |-> e.op, id |-> e.id, stratum |-> stratum] @@ res[i]]
-        /\ cov' = AddKeys(cov, ks, 1)
+  /\ acc' = Upd(acc, Tr[l], l)
   /\ l' = l + 1
 
 Spec == Init /\ [][Next]_vars
 
 Report ==
   l = Len(Tr) + 1 =>
-    JsonSerialize(OutFile, [lines |-> Len(Tr), consumed |-> l - 1, bad |-> bad,
-                            cov |-> [k \in DOMAIN cov |-> cov[k]]])
+    JsonSerialize(OutFile, [lines |-> Len(Tr), consumed |-> l - 1, bad |-> acc.bad,
+                            cov |-> [k \in DOMAIN acc.cov |-> acc.cov[k]]])
 =============================================================================
